@@ -309,6 +309,15 @@ pub fn worker(ctx: &mut Ctx) {
                 v.push(("append-paragraph", format!("{text}\n\nA closing paragraph goes here."), 0));
                 let preq = "She said \"hello\" first.\n\n";
                 v.push(("prepend-quoted-paragraph", format!("{preq}{text}"), preq.chars().count() as isize));
+                // the flagged word once more, capitalised, in a paragraph of its own far above the lint; checked by a linter
+                // that has seen nothing yet (a new session that imported the ignore list)
+                let fl = &ids[*i].flagged;
+                if fl.chars().count() >= 3 && fl.chars().all(|c| c.is_ascii_lowercase()) {
+                    let mut cs = fl.chars();
+                    let cap: String = cs.next().map(|f| f.to_uppercase().chain(cs).collect()).unwrap_or_default();
+                    let pret = format!("{cap} is what they wrote at the very top of the page.\n\nNothing of interest happens in this paragraph.\n\n");
+                    v.push(("prepend-capitalised-twin@fresh-linter", format!("{pret}{text}"), pret.chars().count() as isize));
+                }
                 // insert a word at a token boundary at least 8 characters before the lint
                 if l.span.start >= 12 {
                     if let Some(pos) = (0..l.span.start - 8).rev().find(|p| src[*p] == ' ') {
@@ -331,9 +340,10 @@ pub fn worker(ctx: &mut Ctx) {
             };
             for (ename, etext, shift) in edits {
                 ctx.report.evaluations += 1;
+                let fresh = ename.ends_with("@fresh-linter");
                 let r2 = guarded(|| {
                     let d2 = Document::new(&etext, &parser, &dict);
-                    let mut l2 = lg.lint(&d2);
+                    let mut l2 = if fresh { LintGroup::new_curated(dict.clone(), Dialect::American).lint(&d2) } else { lg.lint(&d2) };
                     let before_n = l2.len();
                     ign.remove_ignored(&mut l2, &d2);
                     (d2, l2, before_n)
@@ -351,12 +361,18 @@ pub fn worker(ctx: &mut Ctx) {
                     // a paragraph added right at the lint's edge shows up as a new neighbour: not "untouched"
                     nb_before.retain(|x| !x.0.is_empty() || true);
                     nb_after.retain(|x| !x.0.is_empty() || true);
-                    if differs(&id2, &ids[*i]).is_none() && nb_before == nb_after {
+                    // what the lint offers may not depend on text far away either: a lint that comes back with other
+                    // suggestions although nothing near it changed is the ignored lint coming back
+                    let dd = all_differences(&id2, &ids[*i]);
+                    let d = if dd.is_empty() { None } else { Some("suggestions") };
+                    if (dd.is_empty() || dd == ["suggestions"]) && nb_before == nb_after {
                         // the context hash looks at start+2..start+4 instead of end..end+2: an appended
                         // paragraph can fall into that misplaced window although it is not within two
                         // characters of the lint
                         let misplaced_window = ename == "append-paragraph" && l.span.start + 4 > src.len() && l.span.end + 2 <= src.len();
-                        let q = if ids[*i].quote_in_context {
+                        let q = if d == Some("suggestions") {
+                            "other-suggestions"
+                        } else if ids[*i].quote_in_context {
                             "quote-in-context"
                         } else if l.span.start == 1 && shift > 0 {
                             // the window before a lint that starts at offset 1 is dropped, not clamped
